@@ -2,6 +2,7 @@ package harness
 
 import (
 	"github.com/enbility/spine-go/model"
+	"github.com/enbility/spine-go/util"
 
 	"verifsim/simrt"
 )
@@ -44,6 +45,12 @@ func init() {
 					w.Violate("C08/valid-subscription-refused", "the subscription of %s to %s was refused", AddrStr(pCli.Address()), AddrStr(srv.Address()))
 					return
 				}
+				// the subscriber is also bound: some of the changes are its own accepted remote writes
+				// (full writes, whose cmd carries what the function then holds), with ackRequest absent,
+				// false or true - the acknowledgement has nothing to do with the notification (seed C08-g)
+				bc := p.SendBind(pCli, srv.Address(), ft, false, "bind")
+				p.Await(bc)
+				bound := okResult(p, bc)
 				simrt.WaitUntil("conn-idle", func() bool { return len(p.Conn.Queue) == 0 && !p.Conn.Handling })
 				var ref absList
 				seen := len(p.Conn.Out)
@@ -55,7 +62,25 @@ func init() {
 					}
 					w.Logf("update %d %s on %s", i, u.shape, info.Fn)
 					how := "UpdateData"
-					if u.fp == nil && u.fd == nil && w.T.Bool(1, 2, "set-data") {
+					if u.fp == nil && u.fd == nil && bound && u.shape == "full" && w.T.Bool(1, 3, "remote-write") {
+						var ack *bool
+						switch w.T.Choose(3, "write-ack") {
+						case 0:
+							how = "remote write (ackRequest absent)"
+						case 1:
+							how, ack = "remote write (ackRequest false)", util.Ptr(false)
+						default:
+							how, ack = "remote write (ackRequest true)", util.Ptr(true)
+						}
+						cmd := model.CmdType{}
+						SetCmdData(&cmd, info.Fn, u.data)
+						p.Await(p.SendCmd(pCli.Address(), srv.Address(), model.CmdClassifierTypeWrite, ack, cmd, "write-full"))
+						simrt.WaitUntil("conn-idle", func() bool { return len(p.Conn.Queue) == 0 && !p.Conn.Handling })
+						if absOf(info, srv.F.DataCopy(info.Fn)).canon() != absOf(info, u.data).canon() {
+							continue // (not accepted: C03/C04's business; nothing changed, nothing to tell)
+						}
+						w.Probe("c08r-remote-write-accepted")
+					} else if u.fp == nil && u.fd == nil && w.T.Bool(1, 2, "set-data") {
 						how = "SetData"
 						srv.F.SetData(info.Fn, u.data)
 					} else if e := srv.F.UpdateData(info.Fn, u.data, u.fp, u.fd); e != nil {
